@@ -547,14 +547,15 @@ func main() {
 		defer pprof.StopCPUProfile()
 	}
 	total := newStats()
-	// B: all <=5 (+ canonical 6) quick, all <=6 (+ canonical 7) thorough; S has the larger alphabet
-	fB, mB, fS, mS := c.Pick(5, 6), c.Pick(6, 7), c.Pick(4, 5), c.Pick(5, 6)
+	// (all sequences up to, one per renaming class up to): B quick (6,6) thorough (6,7);
+	// S (larger alphabet: separate account / per-contract snapshot stacks) quick (5,5) thorough (6,6)
+	fB, mB, fS, mS := 6, c.Pick(6, 7), c.Pick(5, 6), c.Pick(5, 6)
 	if v := os.Getenv("C12_LENS"); v != "" {
 		fmt.Sscan(v, &fB, &mB, &fS, &mS)
 	}
 	exhaustive(c, 'B', fB, mB, 2, 2, 6, total)
 	exhaustive(c, 'S', fS, mS, 2, 2, 6, total)
-	nr := c.Pick(600, 40000)
+	nr := c.Pick(800, 30000)
 	if v := os.Getenv("C12_NR"); v != "" {
 		fmt.Sscan(v, &nr)
 	}
